@@ -607,6 +607,87 @@ fn cmd_shell(args: &[String]) -> i32 {
     0
 }
 
+fn fnv(s: &str) -> String {
+    let mut h: u64 = 0xcbf29ce484222325;
+    for b in s.as_bytes() {
+        h ^= *b as u64;
+        h = h.wrapping_mul(0x100000001b3);
+    }
+    format!("{:016x}", h)
+}
+
+/// C04: sessions of calls on one OptionParser object.  Every call is announced (BEGIN) before it is
+/// made and reported (END) after it returned, so that the watching parent can tell a hang or a
+/// process exit from a result.
+fn cmd_session(args: &[String]) -> i32 {
+    let path = arg_val(args, "--sessions").expect("--sessions");
+    let start: usize = arg_val(args, "--start").map(|x| x.parse().unwrap()).unwrap_or(0);
+    let rd = BufReader::new(std::fs::File::open(&path).unwrap());
+    let out = std::io::stdout();
+    for (si, l) in rd.lines().enumerate() {
+        let l = l.unwrap();
+        if si < start || l.trim().is_empty() {
+            continue;
+        }
+        let sess: J = serde_json::from_str(&l).unwrap();
+        let mut o = out.lock();
+        writeln!(o, "SESSION {}", si).unwrap();
+        o.flush().unwrap();
+        let b = match build(&sess["def"]) {
+            Ok(b) => b,
+            Err(e) => {
+                writeln!(o, "SKIP {} build: {}", si, e.replace('\n', " ")).unwrap();
+                continue;
+            }
+        };
+        // invariant filter: bpaf documents that help generation panics unless check_invariants holds
+        let probe = run(&b, &["--help".into()], &RunOpts { name: Some(APP), comp: None });
+        if probe.class == "panic" && probe.text.contains("bpaf usage BUG") {
+            writeln!(o, "SKIP {} invariants: {}", si, probe.text.replace('\n', " ")).unwrap();
+            continue;
+        }
+        for (k, call) in sess["calls"].as_array().unwrap().iter().enumerate() {
+            writeln!(o, "BEGIN {} {}", si, k).unwrap();
+            o.flush().unwrap();
+            let op = call["op"].as_str().unwrap();
+            let (class, text) = match op {
+                "doc" => {
+                    #[cfg(feature = "docgen")]
+                    {
+                        let r = std::panic::catch_unwind(std::panic::AssertUnwindSafe(|| match call["fmt"].as_str().unwrap() {
+                            "markdown" => b.parser.render_markdown(APP),
+                            "html" => b.parser.render_html(APP),
+                            _ => b.parser.render_manpage(APP, bpaf::doc::Section::General, None, None, None),
+                        }));
+                        match r {
+                            Ok(t) => ("doc".to_string(), t),
+                            Err(e) => ("panic".to_string(), panic_text(&e)),
+                        }
+                    }
+                    #[cfg(not(feature = "docgen"))]
+                    {
+                        ("doc".to_string(), String::new())
+                    }
+                }
+                _ => {
+                    let argv = concretize(&call["argv"]);
+                    let named = call["named"].as_bool().unwrap_or(true);
+                    let comp = call.get("rev").and_then(J::as_u64).map(|x| x as usize);
+                    let r = run(&b, &argv, &RunOpts { name: if named { Some(APP) } else { None }, comp });
+                    let t = match r.class {
+                        "ok" => r.value.map(|v| v.to_string()).unwrap_or_default(),
+                        _ => r.text,
+                    };
+                    (r.class.to_string(), t)
+                }
+            };
+            writeln!(o, "END {} {} {} {} {}", si, k, class, fnv(&text), text.chars().take(120).collect::<String>().replace('\n', "|")).unwrap();
+            o.flush().unwrap();
+        }
+    }
+    0
+}
+
 fn main() {
     std::panic::set_hook(Box::new(|_| {}));
     let args: Vec<String> = std::env::args().collect();
@@ -616,6 +697,7 @@ fn main() {
         Some("render") => cmd_render(&args[2..]),
         Some("wrap") => cmd_wrap(&args[2..]),
         Some("shell") => cmd_shell(&args[2..]),
+        Some("session") => cmd_session(&args[2..]),
         _ => {
             eprintln!("usage: harness replay --defs F --cases F --out F [--dump-obs F]");
             2
